@@ -19,7 +19,7 @@ RULE = (
 )
 ASSUMPTIONS = [
     "the property is conditional on 'the library solves': an exception inside solve() is counted as not solved (by signature), never as a pass of the assertions",
-    "entropy inequalities are asserted with 1e-8 relative slack and skipped (counted) when PropsSI itself orders the two states the wrong way",
+    "entropy inequalities are asserted with 1e-6 relative + 1e-3 J/kg/K slack and skipped (counted) when PropsSI itself orders the two states the wrong way",
     "CoolProp is the only property database available: the saturation-pressure second opinion is its other interface",
     "operating points whose evaporating saturation pressure is below 1 kPa, or where CoolProp's two interfaces disagree on a saturation pressure by more than 1e-8, are skipped and counted",
 ]
@@ -179,9 +179,9 @@ def eval_case(case) -> Outcome:
             return None
 
     for (a, b, aid, what) in ((0, 1, "C18.compression_entropy", "compression"), (2, 3, "C18.throttle_entropy", "throttling")):
-        if S[b] < S[a] - 1e-8 * max(abs(S[a]), abs(S[b]), 1.0):
+        if S[b] < S[a] - (1e-6 * max(abs(S[a]), abs(S[b])) + 1e-3):  # J/kg/K; CoolProp's flash noise is ~1e-8 relative
             so = second_opinion(a, b)
-            if so is not None and so[1] < so[0] - 1e-8 * max(abs(so[0]), 1.0) and close(H[3], H[2], 1e-10, 1e-6) and b == 3:
+            if so is not None and so[1] < so[0] - (1e-6 * abs(so[0]) + 1e-3) and close(H[3], H[2], 1e-7, 1e-3) and b == 3:
                 out.labels.add("coolprop-inconsistent")
                 continue
             out.fail(aid, f"{ctx}: {what} lowers specific entropy: S{a}={S[a]!r} -> S{b}={S[b]!r}")
